@@ -1,5 +1,7 @@
 import DracoProofs.Octahedron
 import DracoProofs.OctaAngle
+import DracoProofs.OctaFloatAngle
+import DracoProofs.GeneratedFuncs
 /-
   C07 (integer half) — octahedral coordinates produced by the encoder lie inside the q-bit
   square `[0, max_value_]² = [0, 2^q − 2]²` and are canonical (the unique representative of the
@@ -21,11 +23,18 @@ import DracoProofs.OctaAngle
                            `IntegerVectorToQuantizedOctahedralCoords v` returns `v / c`.
   * `angle_bound_exact_decoded`  hence the exactly decoded direction is within
                            `3·(2/(2^q − 2))` of `n`.
-  Missing for the full statement "angle ≤ 3·(2/(2^q−2)) + 2e-6 for the float code":
-  (b) the `double` roundings of the encoder (the rounded coordinates can differ from `⌊·+1/2⌋` of
-      the exact value at ties) and the `float` roundings of the decoder incl. its normalisation
-      — the `2e-6` allowance, (c) `q = 2` (`c = 1`, bound 3 rad), where `9/(2c²) > 1` and the
-      argument gives nothing.  These remain evaluated per case.
+  Float code path (second part of slice c08plus; any rounding oracle, see the section at the end):
+  * `float_decoded_unit_length`  (1) `|‖d‖ − 1| ≤ 10u` for every grid point, q = 2..30; the zero
+                           branch of the normalisation is never taken.
+  * `float_angle_bound`    (2) `∠(n, decode(encode n)) ≤ 3·(2/(2^q−2)) + 120·uE + 144·u`, q ≥ 3.
+  * `float_zero_input`     (3) all-zero input → `(c,0,0)` → unit vector within `144u` of `+x`.
+  * `float_angle_bound_q2` (4) `q = 2`: `≤ π/2 + 64·uE + 144·u ≤ 3`.
+  What stays an assumption: that g++/SSE `double`/`float` arithmetic obeys the rounding models
+  (`Octa.DoubleModel`, `Octa.DecModel`) — as for C04; no theorem is stated about the opaque
+  `Float`/`Float32` instances themselves (they are tied to the generic functions by `rfl`-style
+  lemmas and to the C++ bit for bit).  The empirical allowance `2e-6` of the per-case check is
+  NOT proved: the proved one is `144·2^-24 + 120·2^-53 ≈ 8.6e-6` (worst-case accumulation of
+  all roundings; first-order sharper constants are possible, see notes/c08plus.md).
 -/
 namespace Draco
 
@@ -302,5 +311,274 @@ theorem angle_bound_exact_decoded (q : Nat) (t : OctaT) (hinit : Octa.init q = s
     field_simp
   rw [e3]
   exact hmain
+
+/-! ### the float code path under rounding oracles (slice c08plus, second part)
+
+  Style of `quant_float_half_step` (C04): theorems for ANY oracle obeying the standard rounding
+  model — `Octa.DoubleModel opsE uE` for the `double` expressions of
+  `FloatVectorToQuantizedOctahedralCoords` (binary64: `uE = 2^-53`) and `Octa.DecModel opsD u` for
+  the `float` expressions of `QuantizedOctahedralCoordsToUnitVector` incl. the normalisation
+  (binary32: `u = 2^-24`).  The generic functions are the ones whose `Float` / `Float32`
+  instances ARE the executable model (`Octa.floatVecRound_eq_generic`,
+  `Octa.coordsToUnitVector_eq_normG`), which is compared bit for bit with the C++.
+  The models idealise "no overflow / underflow".  For `float` inputs this is no restriction on
+  the encoder: `|x|+|y|+|z| ∈ [2^-149, 3·2^128]` and every intermediate `double` lies in
+  `[2^-279, 2^30]`; the decoder works on values in `[2^-30, 4]` or exact zeros.
+  Angles are `InnerProductGeometry.angle` of `Octa.vec3`; `Octa.angle_vec3` unfolds it to
+  `arccos (a·b / (‖a‖‖b‖))`. -/
+
+theorem castR {a b : ℚ} (h : a ≤ b) : (a:ℝ) ≤ (b:ℝ) := by exact_mod_cast h
+
+theorem sqrt_sub_one_le (x : ℝ) (hx : 0 ≤ x) : |Real.sqrt x - 1| ≤ |x - 1| := by
+  have hs := Real.sqrt_nonneg x
+  have e : x - 1 = (Real.sqrt x - 1) * (Real.sqrt x + 1) := by
+    have := Real.sq_sqrt hx; nlinarith
+  rw [e, abs_mul, abs_of_pos (by linarith : 0 < Real.sqrt x + 1)]
+  have := abs_nonneg (Real.sqrt x - 1)
+  nlinarith
+
+/-- **(1) Unit length.**  For every `q = 2..30`, every grid point `(s, t) ∈ [0, 2^q−2]²` and every
+    decoder oracle with unit roundoff `u ≤ 2^-10`: the zero branch of
+    `OctahedralCoordsToUnitVector` is not taken (no division by zero, hence no NaN), and the
+    decoded vector has `|‖d‖² − 1| ≤ 10u` and `|‖d‖ − 1| ≤ 10u` (binary32: 5.97e-7). -/
+theorem float_decoded_unit_length (opsD : Octa.OctaNormOps ℝ) (u : ℝ) (hmD : Octa.DecModel opsD u)
+    (hu0 : 0 ≤ u) (hu : u ≤ 1/1024) (q : Nat) (t : OctaT) (hinit : Octa.init q = some t)
+    (p : Int × Int) (hg : Octa.inGrid t p) :
+    let d := @Octa.coordsToUnitVectorG ℝ opsD t.maxV p
+    |d.1 ^ 2 + d.2.1 ^ 2 + d.2.2 ^ 2 - 1| ≤ 10 * u ∧
+    |Real.sqrt (d.1 ^ 2 + d.2.1 ^ 2 + d.2.2 ^ 2) - 1| ≤ 10 * u := by
+  intro d
+  obtain ⟨hV, _, hc1, _⟩ := (Octa.init_wf hinit).1
+  unfold Octa.inGrid at hg
+  rw [hV] at hg
+  obtain ⟨s0, s1, t0, t1⟩ := hg
+  obtain ⟨_, _, _, _, _, _, _, _, _, hlen⟩ :=
+    Octa.decoded_unit opsD hmD hu0 hu t.center hc1 p.1 p.2 s0 s1 t0 t1
+  have hd : d = @Octa.coordsToUnitVectorG ℝ opsD (2 * t.center) (p.1, p.2) := by
+    show @Octa.coordsToUnitVectorG ℝ opsD t.maxV p = _; rw [hV]
+  rw [hd]
+  exact ⟨hlen, le_trans (sqrt_sub_one_le _ (by positivity)) hlen⟩
+
+/-- non-vacuity: the oracle that biases every operation by `1 + 2^-24`, q = 10, point (3, 700) -/
+example : |Real.sqrt ((@Octa.coordsToUnitVectorG ℝ (Octa.biasedNormOps (1/2^24)) 1022 (3, 700)).1 ^ 2
+      + (@Octa.coordsToUnitVectorG ℝ (Octa.biasedNormOps (1/2^24)) 1022 (3, 700)).2.1 ^ 2
+      + (@Octa.coordsToUnitVectorG ℝ (Octa.biasedNormOps (1/2^24)) 1022 (3, 700)).2.2 ^ 2) - 1|
+    ≤ 10 * (1/2^24) :=
+  (float_decoded_unit_length (Octa.biasedNormOps (1/2^24)) (1/2^24)
+    (Octa.biasedNormOps_model _ _ (by rw [abs_of_pos] <;> norm_num)) (by norm_num) (by norm_num)
+    10 ⟨10, 1023, 1022, 511⟩ (by decide) (3, 700) (by unfold Octa.inGrid; decide)).2
+
+open InnerProductGeometry in
+/-- **(2) Angle, `q = 3..30`.**  Encoder oracle with `uE ≤ 2^-40`, `c·uE ≤ 2^-9`; decoder oracle
+    with `0 < u ≤ 2^-14`; `n` a non-zero rational (= finite float) vector.  The float encoder's
+    rounded coordinates are within `1/2 + 8·c·uE` of the exactly scaled ones
+    (`Octa.float_round_close`: they can differ from the exact-arithmetic choice by one grid step
+    only when the scaled value is within `8·c·uE` of a rounding boundary), which costs `120·uE`;
+    the decoder's roundings (scale, two subtractions, sign decisions, normalisation) cost `144·u`:
+    `∠(n, decode(encode n)) ≤ 3·(2/(2^q − 2)) + 120·uE + 144·u`
+    (binary64 / binary32: `+ 8.6e-6`). -/
+theorem float_angle_bound (opsE : DoubleOps ℚ) (uE : ℚ) (hmE : Octa.DoubleModel opsE uE)
+    (opsD : Octa.OctaNormOps ℝ) (u : ℝ) (hmD : Octa.DecModel opsD u)
+    (huE0 : 0 ≤ uE) (huE : uE ≤ 1 / 2 ^ 40) (hu0 : 0 < u) (hu : u ≤ 1/16384)
+    (q : Nat) (t : OctaT) (hinit : Octa.init q = some t) (hq : 3 ≤ q)
+    (hcu : (t.center : ℚ) * uE ≤ 1/512)
+    (n1 n2 n3 : ℚ) (hn : 0 < |n1| + |n2| + |n3|) :
+    let r := @Octa.floatVecRoundG ℚ opsE t.center n1 n2 n3
+    let st := Octa.intVecToCoords t (Octa.fixIntVec t r.1 r.2.1 r.2.2)
+    let d := @Octa.coordsToUnitVectorG ℝ opsD t.maxV st
+    angle (Octa.vec3 n1 n2 n3) (Octa.vec3 d.1 d.2.1 d.2.2)
+      ≤ 3 * (2 / ((2:ℝ) ^ q - 2)) + 120 * uE + 144 * u := by
+  intro r st d
+  have hwf := (Octa.init_wf hinit).1
+  obtain ⟨hcen, hc3⟩ := Octa.init_center hinit
+  have hc3 := hc3 hq
+  obtain ⟨hsum, d1, d2, d3⟩ := Octa.encoder_facts opsE hmE huE0 huE t hwf hcu n1 n2 n3 hn
+  set v := Octa.fixIntVec t r.1 r.2.1 r.2.2 with hv
+  obtain ⟨hdec, _⟩ := Octa.decoder_angle opsD hmD hu0 hu t hwf v hsum
+  have hc3r : (3:ℝ) ≤ (t.center : ℝ) := by exact_mod_cast hc3
+  have hc0 : (0:ℝ) < (t.center : ℝ) := by linarith
+  have hεq : (8 * (t.center : ℚ) * uE : ℚ) ≤ 1/64 := by linarith
+  have hε : (8 * (t.center : ℝ) * (uE : ℝ)) ≤ 1/64 := by
+    have := castR hεq; push_cast at this; linarith
+  have hε0 : (0:ℝ) ≤ 8 * (t.center : ℝ) * (uE : ℝ) := by
+    have : (0:ℝ) ≤ (uE : ℝ) := by exact_mod_cast huE0
+    positivity
+  have d1r : |(n1:ℝ) / (|(n1:ℝ)| + |(n2:ℝ)| + |(n3:ℝ)|) * (t.center : ℝ) - (v.1 : ℝ)|
+      ≤ 1/2 + 8 * (t.center : ℝ) * (uE : ℝ) := by
+    have := castR d1; push_cast at this; linarith
+  have d2r : |(n2:ℝ) / (|(n1:ℝ)| + |(n2:ℝ)| + |(n3:ℝ)|) * (t.center : ℝ) - (v.2.1 : ℝ)|
+      ≤ 1/2 + 8 * (t.center : ℝ) * (uE : ℝ) := by
+    have := castR d2; push_cast at this; linarith
+  have d3r : |(n3:ℝ) / (|(n1:ℝ)| + |(n2:ℝ)| + |(n3:ℝ)|) * (t.center : ℝ) - (v.2.2 : ℝ)|
+      ≤ 1 + 2 * (8 * (t.center : ℝ) * (uE : ℝ)) := by
+    have := castR d3; push_cast at this; linarith
+  have hSr : (0:ℝ) < |(n1:ℝ)| + |(n2:ℝ)| + |(n3:ℝ)| := by exact_mod_cast hn
+  have henc := Octa.encoder_angle_of_facts (t.center : ℝ) hc3r _ hε0 hε (n1:ℝ) (n2:ℝ) (n3:ℝ) _ rfl hSr
+    (v.1 : ℝ) (v.2.1 : ℝ) (v.2.2 : ℝ) d1r d2r d3r
+  have htri := angle_le_angle_add_angle (Octa.vec3 n1 n2 n3) (Octa.vec3 v.1 v.2.1 v.2.2)
+    (Octa.vec3 d.1 d.2.1 d.2.2)
+  have hbound : 3 * (2 / ((2:ℝ) ^ q - 2)) = 3 / (t.center : ℝ) := by
+    have : ((2:ℝ) ^ q - 2) = 2 * (t.center : ℝ) := by
+      have : ((2 * t.center : Int) : ℝ) = (((2:Int) ^ q - 2 : Int) : ℝ) := by rw [hcen]
+      push_cast at this; linarith
+    rw [this]; field_simp
+  have e : 3 / (t.center : ℝ) * (1 + 5 * (8 * (t.center : ℝ) * (uE : ℝ)))
+      = 3 / (t.center : ℝ) + 120 * uE := by field_simp; ring
+  rw [hbound]
+  rw [e] at henc
+  linarith
+
+open InnerProductGeometry in
+/-- **(4) `q = 2`** (`c = 1`, the six axis directions): `n·v ≥ −2ε|n|₁`, so
+    `∠(n, decode(encode n)) ≤ π/2 + 64·uE + 144·u`, which is below the property's
+    `3·(2/(2^2−2)) = 3` rad. -/
+theorem float_angle_bound_q2 (opsE : DoubleOps ℚ) (uE : ℚ) (hmE : Octa.DoubleModel opsE uE)
+    (opsD : Octa.OctaNormOps ℝ) (u : ℝ) (hmD : Octa.DecModel opsD u)
+    (huE0 : 0 ≤ uE) (huE : uE ≤ 1 / 2 ^ 40) (hu0 : 0 < u) (hu : u ≤ 1/16384)
+    (t : OctaT) (hinit : Octa.init 2 = some t)
+    (n1 n2 n3 : ℚ) (hn : 0 < |n1| + |n2| + |n3|) :
+    let r := @Octa.floatVecRoundG ℚ opsE t.center n1 n2 n3
+    let st := Octa.intVecToCoords t (Octa.fixIntVec t r.1 r.2.1 r.2.2)
+    let d := @Octa.coordsToUnitVectorG ℝ opsD t.maxV st
+    angle (Octa.vec3 n1 n2 n3) (Octa.vec3 d.1 d.2.1 d.2.2) ≤ Real.pi / 2 + 64 * uE + 144 * u ∧
+    Real.pi / 2 + 64 * (uE : ℝ) + 144 * u ≤ 3 := by
+  intro r st d
+  have hwf := (Octa.init_wf hinit).1
+  have hc : t.center = 1 := by
+    have := (Octa.init_center hinit).1; omega
+  have huEr : ((uE:ℚ):ℝ) ≤ 1 / 2 ^ 40 := by
+    have := castR huE; push_cast at this; linarith
+  have huE0r : (0:ℝ) ≤ ((uE:ℚ):ℝ) := by exact_mod_cast huE0
+  refine ⟨?_, ?_⟩
+  · have hcu : (t.center : ℚ) * uE ≤ 1/512 := by
+      rw [hc]; push_cast
+      have : (1:ℚ) / 2 ^ 40 ≤ 1/512 := by norm_num
+      linarith
+    obtain ⟨hsum, d1, d2, d3⟩ := Octa.encoder_facts opsE hmE huE0 huE t hwf hcu n1 n2 n3 hn
+    set v := Octa.fixIntVec t r.1 r.2.1 r.2.2 with hv
+    obtain ⟨hdec, _⟩ := Octa.decoder_angle opsD hmD hu0 hu t hwf v hsum
+    rw [hc] at hsum d1 d2 d3
+    have hε : (8 * (uE : ℝ)) ≤ 1/64 := by
+      have : (1:ℝ) / 2 ^ 40 ≤ 1/512 := by norm_num
+      linarith
+    have d1r : |(n1:ℝ) / (|(n1:ℝ)| + |(n2:ℝ)| + |(n3:ℝ)|) * 1 - (v.1 : ℝ)| ≤ 1/2 + 8 * (uE : ℝ) := by
+      have := castR d1; push_cast at this; linarith
+    have d2r : |(n2:ℝ) / (|(n1:ℝ)| + |(n2:ℝ)| + |(n3:ℝ)|) * 1 - (v.2.1 : ℝ)| ≤ 1/2 + 8 * (uE : ℝ) := by
+      have := castR d2; push_cast at this; linarith
+    have d3r : |(n3:ℝ) / (|(n1:ℝ)| + |(n2:ℝ)| + |(n3:ℝ)|) * 1 - (v.2.2 : ℝ)|
+        ≤ 1 + 2 * (8 * (uE : ℝ)) := by
+      have := castR d3; push_cast at this; linarith
+    have hSr : (0:ℝ) < |(n1:ℝ)| + |(n2:ℝ)| + |(n3:ℝ)| := by exact_mod_cast hn
+    have henc := Octa.encoder_angle_q2_of_facts (8 * (uE:ℝ)) (by linarith) hε (n1:ℝ) (n2:ℝ) (n3:ℝ) _ rfl
+      hSr v.1 v.2.1 v.2.2 hsum d1r d2r d3r
+    have htri := angle_le_angle_add_angle (Octa.vec3 n1 n2 n3) (Octa.vec3 v.1 v.2.1 v.2.2)
+      (Octa.vec3 d.1 d.2.1 d.2.2)
+    linarith
+  · have := Real.pi_le_four
+    have h1 : (1:ℝ) / 2 ^ 40 ≤ 1/4096 := by norm_num
+    linarith
+
+open InnerProductGeometry in
+/-- **(3) Zero input** (the `abs_sum > 0` guard, fix b048a3b; `double` sums of zeros are zero for
+    every oracle): the all-zero vector is quantized like `(1, 0, 0)` — coordinates of the integer
+    vector `(c, 0, 0)` — and decodes to a vector of length `1 ± 10u` within `144u` of `+x`.
+    No operation divides by zero: `1/abs_sum` is skipped, and `decoded_unit` excludes the zero
+    branch of the normalisation.  Denormal and huge `float` inputs are ordinary non-zero inputs of
+    `float_angle_bound` (the `double` computation cannot over- or underflow on them). -/
+theorem float_zero_input (opsE : DoubleOps ℚ) (uE : ℚ) (hmE : Octa.DoubleModel opsE uE)
+    (opsD : Octa.OctaNormOps ℝ) (u : ℝ) (hmD : Octa.DecModel opsD u)
+    (huE0 : 0 ≤ uE) (huE : uE ≤ 1/1024) (hu0 : 0 < u) (hu : u ≤ 1/16384)
+    (q : Nat) (t : OctaT) (hinit : Octa.init q = some t) (hcu : (t.center : ℚ) * uE ≤ 1/16) :
+    @Octa.floatVecRoundG ℚ opsE t.center 0 0 0 = (t.center, 0, false) ∧
+    Octa.fixIntVec t t.center 0 false = (t.center, 0, 0) ∧
+    (let d := @Octa.coordsToUnitVectorG ℝ opsD t.maxV (Octa.intVecToCoords t (t.center, 0, 0))
+     angle (Octa.vec3 1 0 0) (Octa.vec3 d.1 d.2.1 d.2.2) ≤ 144 * u ∧
+     |d.1 ^ 2 + d.2.1 ^ 2 + d.2.2 ^ 2 - 1| ≤ 10 * u) := by
+  have hwf := (Octa.init_wf hinit).1
+  obtain ⟨_, _, hc1, _⟩ := (Octa.init_wf hinit).1
+  have hfix : Octa.fixIntVec t t.center 0 false = (t.center, 0, 0) := by
+    unfold Octa.fixIntVec iabs
+    have : ¬ (t.center < 0) := by omega
+    simp [this]
+  refine ⟨Octa.floatVecRoundG_zero opsE hmE huE0 huE t.center hc1 hcu, hfix, ?_⟩
+  have hsum : iabs (t.center, (0:Int), (0:Int)).1 + iabs (t.center, (0:Int), (0:Int)).2.1
+      + iabs (t.center, (0:Int), (0:Int)).2.2 = t.center := by
+    unfold iabs; simp; omega
+  obtain ⟨ha, hl⟩ := Octa.decoder_angle opsD hmD hu0 hu t hwf (t.center, 0, 0) hsum
+  refine ⟨?_, hl⟩
+  have hc0 : (0:ℝ) < (t.center : ℝ) := by exact_mod_cast (by omega : (0:Int) < t.center)
+  have e : Octa.vec3 ((t.center, (0:Int), (0:Int)).1 : ℝ) ((t.center, (0:Int), (0:Int)).2.1 : ℝ)
+      ((t.center, (0:Int), (0:Int)).2.2 : ℝ) = (t.center : ℝ) • Octa.vec3 1 0 0 := by
+    rw [← Octa.vec3_smul]; simp
+  rw [e, angle_smul_left_of_pos _ _ hc0] at ha
+  exact ha
+
+/-- non-vacuity of (2)–(4): the exact `double` instance as encoder oracle, the biased `float`
+    oracle as decoder; q = 4, n = (1, -2, 1/3) -/
+example : InnerProductGeometry.angle (Octa.vec3 1 (-2) ((1/3 : ℚ) : ℝ))
+    (Octa.vec3
+      (@Octa.coordsToUnitVectorG ℝ (Octa.biasedNormOps (1/2^24)) 14 (Octa.intVecToCoords ⟨4, 15, 14, 7⟩ (2, -4, 1))).1
+      (@Octa.coordsToUnitVectorG ℝ (Octa.biasedNormOps (1/2^24)) 14 (Octa.intVecToCoords ⟨4, 15, 14, 7⟩ (2, -4, 1))).2.1
+      (@Octa.coordsToUnitVectorG ℝ (Octa.biasedNormOps (1/2^24)) 14 (Octa.intVecToCoords ⟨4, 15, 14, 7⟩ (2, -4, 1))).2.2)
+    ≤ 3 * (2 / ((2:ℝ) ^ 4 - 2)) + 120 * ((0:ℚ):ℝ) + 144 * (1/2^24) := by
+  have h := float_angle_bound Octa.exactDoubleOps 0 (Octa.exactDoubleOps_model 0 (le_refl _))
+    (Octa.biasedNormOps (1/2^24)) (1/2^24)
+    (Octa.biasedNormOps_model _ _ (by rw [abs_of_pos] <;> norm_num)) (le_refl _) (by norm_num)
+    (by norm_num) (by norm_num) 4 ⟨4, 15, 14, 7⟩ (by decide) (by decide) (by norm_num)
+    1 (-2) (1/3) (by norm_num [abs_of_pos, abs_of_neg])
+  have ev : Octa.fixIntVec ⟨4, 15, 14, 7⟩ 2 (-4) false = (2, -4, 1) := by decide
+  simp only [octa_example_round, ev] at h
+  simpa using h
+
+/-- non-vacuity of (4): exact encoder oracle, biased decoder oracle, q = 2, n = (1, -2, 1/3) -/
+example := float_angle_bound_q2 Octa.exactDoubleOps 0 (Octa.exactDoubleOps_model 0 (le_refl _))
+  (Octa.biasedNormOps (1/2^24)) (1/2^24)
+  (Octa.biasedNormOps_model _ _ (by rw [abs_of_pos] <;> norm_num)) (le_refl _) (by norm_num)
+  (by norm_num) (by norm_num) ⟨2, 3, 2, 1⟩ (by decide) 1 (-2) (1/3)
+  (by norm_num [abs_of_pos, abs_of_neg])
+
+/-- non-vacuity of (3): q = 10 -/
+example := float_zero_input Octa.exactDoubleOps 0 (Octa.exactDoubleOps_model 0 (le_refl _))
+  (Octa.biasedNormOps (1/2^24)) (1/2^24)
+  (Octa.biasedNormOps_model _ _ (by rw [abs_of_pos] <;> norm_num)) (le_refl _) (by norm_num)
+  (by norm_num) (by norm_num) 10 ⟨10, 1023, 1022, 511⟩ (by decide) (by norm_num)
+
+/-! ## the source functions *are* the model functions
+
+  `Generated.*` (lean/Generated/Funcs.lean) is translated mechanically from clang's typed AST of /repo's
+  working tree on every run (tools/vlib/xlate.py).  Each theorem states that the translated
+  `OctahedronToolBox` function equals the model function the theorems above are about. -/
+open Generated in
+/-- `OctahedronToolBox::CanonicalizeOctahedralCoords` is `Octa.canonicalize` on the grid `[0, max_value_]²` -/
+theorem source_canonicalize_is_model (t : OctaT) (s tt : Int) (hwf : t.WF) (hg : Octa.inGrid t (s, tt)) :
+    OctahedronToolBox.CanonicalizeOctahedralCoords (ofOctaT t) s tt = Octa.canonicalize t (s, tt) :=
+  CanonicalizeOctahedralCoords_eq_model t s tt hwf hg
+example : Generated.OctahedronToolBox.CanonicalizeOctahedralCoords (Generated.ofOctaT (Octa.ofCenter 127)) 0 200 = (0, 54) := by
+  rw [source_canonicalize_is_model _ _ _ (by unfold OctaT.WF Octa.ofCenter; decide) (by unfold Octa.inGrid Octa.ofCenter; decide)]; decide
+
+open Generated in
+/-- `OctahedronToolBox::IsInDiamond` is `Octa.isInDiamond` -/
+theorem source_isInDiamond_is_model' (t : OctaT) (s tt : Int) (hwf : t.WF) :
+    OctahedronToolBox.IsInDiamond (ofOctaT t) s tt = Octa.isInDiamond t s tt := IsInDiamond_eq_model t s tt hwf
+example : Generated.OctahedronToolBox.IsInDiamond (Generated.ofOctaT (Octa.ofCenter 127)) 100 (-27) = true := by
+  rw [source_isInDiamond_is_model' _ _ _ (by unfold OctaT.WF Octa.ofCenter; decide)]; decide
+
+open Generated in
+/-- `OctahedronToolBox::InvertDiamond` is `Octa.invertDiamond` (every pair of `int32_t`) -/
+theorem source_invertDiamond_is_model' (t : OctaT) (s tt : Int) (hwf : t.WF) (hs : I32 s) (ht : I32 tt) :
+    OctahedronToolBox.InvertDiamond (ofOctaT t) s tt = Octa.invertDiamond t (s, tt) :=
+  InvertDiamond_eq_model t s tt hwf hs ht
+example : Generated.OctahedronToolBox.InvertDiamond (Generated.ofOctaT (Octa.ofCenter 127)) 100 (-90) = (37, -27) := by
+  rw [source_invertDiamond_is_model' _ _ _ (by unfold OctaT.WF Octa.ofCenter; decide) (by decide) (by decide)]; decide
+
+open Generated in
+/-- `…CanonicalizedDecodingTransform::ComputeOriginalValue(Point2, Point2)` (the normal decoder's transform) is
+    `Octa.decOrig`, for every prediction on the grid and every correction -/
+theorem source_octaDecode_is_model' (t : OctaT) (pred corr : Int × Int) (hwf : t.WF) (hg : Octa.inGrid t pred) :
+    PredictionSchemeNormalOctahedronCanonicalizedDecodingTransform.ComputeOriginalValue (ofOctaT t) pred corr =
+      Octa.decOrig t pred corr := octaDecode_eq_model t pred corr hwf hg
+example : Generated.PredictionSchemeNormalOctahedronCanonicalizedDecodingTransform.ComputeOriginalValue
+    (Generated.ofOctaT (Octa.ofCenter 127)) (200, 13) (7, 250) = Octa.decOrig (Octa.ofCenter 127) (200, 13) (7, 250) :=
+  source_octaDecode_is_model' _ _ _ (by unfold OctaT.WF Octa.ofCenter; decide) (by unfold Octa.inGrid Octa.ofCenter; decide)
 
 end Draco
